@@ -246,7 +246,7 @@ func (r *c01Run) connect(n int, addr string) string {
 		return "closed"
 	}
 	d := websocket.Dialer{NetDialContext: func(ctx context.Context, network, a string) (net.Conn, error) {
-		return r.hubL.Dial(fmt.Sprintf("%s:%d", addr, 4000+n))
+		return r.hubL.Dial(net.JoinHostPort(addr, strconv.Itoa(4000+n)))
 	}}
 	hdr := http.Header{}
 	hdr.Set("User-Agent", fmt.Sprintf("conn-%d", n))
@@ -742,6 +742,7 @@ func vC01Exec(t *testing.T, c *vCase) {
 	synctest.Test(t, func(t *testing.T) {
 		r := &c01Run{clients: map[int]*c01Client{}, private: map[string]string{}, cfgKV: c01KV{}}
 		defer r.stop()
+		t0 := time.Now()
 		for _, line := range c.Ops {
 			f := strings.Fields(line)
 			if len(f) == 0 {
@@ -794,6 +795,10 @@ func vC01Exec(t *testing.T, c *vCase) {
 				if out != "bad-op" {
 					// a connection the server closed is closed for the following ops
 					synctest.Wait()
+					if !time.Now().Equal(t0) {
+						// the case is meant to run at one instant of the virtual clock
+						out += " CLOCK-MOVED"
+					}
 					out = out + " ; " + r.digest()
 					if oracle != "" {
 						out += " || " + oracle
